@@ -239,6 +239,17 @@ func vStubRqhPeek(h *fasthttp.RequestHeader, key string) []byte {
 	return nil
 }
 
+//verif:replace (*github.com/valyala/fasthttp.ResponseHeader).Peek
+func vStubRshPeek(h *fasthttp.ResponseHeader, key string) []byte {
+	g := vGhostOf(h)
+	for i := range g.keys {
+		if bytes.EqualFold(g.keys[i], []byte(key)) {
+			return g.vals[i]
+		}
+	}
+	return nil
+}
+
 // ---- request side, as the client uses it ----
 
 //verif:replace (*github.com/valyala/fasthttp.RequestHeader).SetMethod
